@@ -48,65 +48,64 @@ Lemma nleb_split a b : N.leb a b = N.ltb a b || N.eqb a b.
 Proof. destruct (N.leb_spec a b), (N.ltb_spec a b), (N.eqb_spec a b); cbn [orb]; try reflexivity; lia. Qed.
 
 Lemma item_tv_sat x i :
-  nonnull x = true -> item_typed (kind_of x) i = true -> item_tv x i = Some (of_bool (sat_item x i)).
-Proof. intros Hx Ht. destruct i as [a|o a|lo lc hi hc]; cbn [item_typed] in Ht.
-  - apply kind_eqb_eq in Ht.
-    destruct x, a; cbn [kind_of] in Ht; try discriminate; cbn in Hx; try discriminate;
-      cbn [item_tv in_equal teq sat_item atom_eqb]; match goal with |- context [of_bool ?b] => destruct b end; reflexivity.
+  item_typed (kind_of x) i = true -> item_tv x i = Some (of_bool (sat_item x i)).
+Proof. intros Ht. destruct i as [a|o a|lo lc hi hc]; cbn [item_typed] in Ht.
+  - destruct x, a; cbn in Ht; try discriminate;
+      cbn [item_tv item_tv_gen in_equal teq sat_item atom_eqb]; try reflexivity;
+      match goal with |- context [of_bool ?b] => destruct b end; reflexivity.
   - apply andb_true_iff in Ht. destruct Ht as [Hk Ho]. apply kind_eqb_eq in Hk.
-    destruct x, a; cbn [kind_of] in Hk; try discriminate; cbn in Ho; try discriminate; cbn [item_tv in_cmp].
+    destruct x, a; cbn [kind_of] in Hk; try discriminate; cbn in Ho; try discriminate; cbn [item_tv item_tv_gen in_cmp].
     + rewrite cmp_c_z. destruct o; cbn [sat_item lt_atom le_atom atom_eqb]; reflexivity.
     + rewrite cmp_c_n. destruct o; cbn [sat_item lt_atom le_atom atom_eqb]; reflexivity.
   - apply andb_true_iff in Ht. destruct Ht as [Ht Ho]. apply andb_true_iff in Ht. destruct Ht as [Hl Hh].
     apply kind_eqb_eq in Hl. apply kind_eqb_eq in Hh.
     destruct x, lo; cbn [kind_of] in Hl; try discriminate; destruct hi; cbn [kind_of] in Hh; try discriminate;
-      cbn in Ho; try discriminate; cbn [item_tv in_range sat_item le_atom lt_atom atom_eqb].
+      cbn in Ho; try discriminate; cbn [item_tv item_tv_gen in_range sat_item le_atom lt_atom atom_eqb].
     + rewrite !zleb_split. destruct lc, hc; reflexivity.
     + rewrite !nleb_split. destruct lc, hc; reflexivity. Qed.
 
 Lemma in_list_sat x l :
-  nonnull x = true -> forallb (item_typed (kind_of x)) l = true -> in_list x l = of_bool (existsb (sat_item x) l).
-Proof. intros Hx. induction l as [|i l IH]; cbn [forallb in_list existsb]; intros Ht; [reflexivity|].
-  apply andb_true_iff in Ht. destruct Ht as [Hi Hl]. rewrite (item_tv_sat x i Hx Hi).
+  forallb (item_typed (kind_of x)) l = true -> in_list x l = of_bool (existsb (sat_item x) l).
+Proof. induction l as [|i l IH]; cbn [forallb existsb]; intros Ht; [reflexivity|].
+  apply andb_true_iff in Ht. destruct Ht as [Hi Hl]. unfold in_list. cbn [in_list_gen]. fold (item_tv x i). rewrite (item_tv_sat x i Hi).
   destruct (sat_item x i); cbn [of_bool orb]; [reflexivity | apply IH; exact Hl]. Qed.
 
-Theorem in_test_sat x u : value_typed x u = true -> in_test in_neg_list x u = of_bool (sat x u).
-Proof. unfold value_typed. intros H. apply andb_true_iff in H. destruct H as [Hx Ht].
-  destruct u as [|l|l]; cbn [in_test sat utest_typed] in *.
-  - destruct x; cbn in Hx; try discriminate; reflexivity.
-  - apply in_list_sat; assumption.
-  - unfold in_neg_list. rewrite in_list_sat by assumption. destruct (existsb (sat_item x) l); reflexivity. Qed.
+Theorem in_test_sat x u : value_typed x u = true -> in_test false true in_neg_list x u = of_bool (sat x u).
+Proof. unfold value_typed. intros Ht.
+  destruct u as [|l|l]; cbn [in_test sat utest_typed negb] in *.
+  - destruct x; reflexivity.
+  - apply (in_list_sat x l Ht).
+  - unfold in_neg_list, in_neg_list_gen. fold (in_list x l). rewrite in_list_sat by assumption. destruct (existsb (sat_item x) l); reflexivity. Qed.
 
 Lemma is_tt_of_bool b : is_tt (of_bool b) = b.
 Proof. destruct b; reflexivity. Qed.
 
 (* ================================================================== B. matching rules *)
-Lemma entry_true_sat x ic e : entry_typed x ic e = true -> entry_true false x ic e = entry_sat x ic e.
-Proof. unfold entry_typed, entry_true, entry_sat, neg. intros H. apply andb_true_iff in H. destruct H as [Hv Hi].
+Lemma entry_true_sat x ic e : entry_typed x ic e = true -> entry_true false true x ic e = entry_sat x ic e.
+Proof. unfold entry_typed, entry_true, entry_sat, neg. cbv iota. fold in_neg_list. intros H. apply andb_true_iff in H. destruct H as [Hv Hi].
   rewrite (in_test_sat x e Hv), is_tt_of_bool. destruct (i_values ic) as [vs|]; [|reflexivity].
-  unfold value_typed in Hv. apply andb_true_iff in Hv. destruct Hv as [Hx _].
-  rewrite (in_list_sat x vs Hx Hi), is_tt_of_bool. reflexivity. Qed.
+  fold (in_list x vs). rewrite (in_list_sat x vs Hi), is_tt_of_bool. reflexivity. Qed.
 
 Lemma rule_matches_sat ics : forall xs es,
-  all3 entry_typed xs ics es = true -> rule_matches false xs ics es = all3 entry_sat xs ics es.
+  all3 entry_typed xs ics es = true -> rule_matches false true xs ics es = all3 entry_sat xs ics es.
 Proof. induction ics as [|ic ics IH]; intros [|x xs] [|e es]; cbn [all3 rule_matches]; try discriminate; try reflexivity.
   intros H. apply andb_true_iff in H. destruct H as [H1 H2]. rewrite (entry_true_sat _ _ _ H1), (IH _ _ H2). reflexivity. Qed.
 
 Lemma filter_map {A B} (f : B -> bool) (g : A -> B) l : filter f (map g l) = map g (filter (fun x => f (g x)) l).
 Proof. induction l as [|x l IH]; cbn [map filter]; [reflexivity|]. destruct (f (g x)); cbn [map]; rewrite IH; reflexivity. Qed.
 
-Lemma typed_rules t xs : typed t xs = true -> forall r, In r (t_rules t) -> all3 entry_typed xs (t_inputs t) (r_in r) = true.
-Proof. unfold typed. intros H r Hr. apply andb_true_iff in H. destruct H as [_ H].
+Lemma typed_rules t xs : typed_nl t xs = true -> forall r, In r (t_rules t) -> all3 entry_typed xs (t_inputs t) (r_in r) = true.
+Proof. unfold typed_nl. intros H r Hr. apply andb_true_iff in H. destruct H as [_ H].
   rewrite forallb_forall in H. apply H. exact Hr. Qed.
 
-Theorem matching_hits t xs : typed t xs = true -> matching false t xs = map (eval_rule false t xs) (hits t xs).
+Theorem matching_hits t xs : typed_nl t xs = true -> matching false true t xs = map (eval_rule false true t xs) (hits t xs).
 Proof. intros Ht. unfold matching, hits. rewrite filter_map. f_equal. apply filter_ext_in. intros r Hr.
   cbn [eval_rule matches]. unfold rule_sat. apply rule_matches_sat. apply (typed_rules t xs Ht r Hr). Qed.
 
-Lemma rule_outs_spec ocs : forall os, rule_outs ocs os = map (fun p => out_filter (o_values (fst p)) (snd p)) (combine ocs os).
+Lemma rule_outs_spec ocs : forall os, rule_outs true ocs os = map (fun p => out_filter (o_values (fst p)) (snd p)) (combine ocs os).
 Proof. induction ocs as [|oc ocs IH]; intros [|o os]; cbn [rule_outs combine map fst snd]; try reflexivity. rewrite IH. reflexivity. Qed.
 
-Lemma outs_eval t xs r : outs (eval_rule false t xs r) = spec_outs t r.
+Lemma outs_eval t xs r : outs (eval_rule false true t xs r) = spec_outs t r.
 Proof. cbn [eval_rule outs]. unfold spec_outs. apply rule_outs_spec. Qed.
 
 Lemma hits_in t xs r : In r (hits t xs) -> In r (t_rules t) /\ rule_sat t xs r = true.
@@ -132,7 +131,7 @@ Lemma spec_outs_length t r : length (r_out r) = length (t_outputs t) -> length (
 Proof. intros H. unfold spec_outs. rewrite map_length, combine_length. lia. Qed.
 
 Lemma get_result_spec t xs r : wf t = true -> In r (t_rules t) ->
-  get_result t (eval_rule false t xs r) = Some (spec_out t r).
+  get_result t (eval_rule false true t xs r) = Some (spec_out t r).
 Proof. intros Hwf Hr. destruct (wf_parts t Hwf) as [Hpos [Hlen Hnames]]. destruct (Hlen r Hr) as [_ Ho].
   unfold get_result, spec_out, compose. rewrite outs_eval. pose proof (spec_outs_length t r Ho) as Hl.
   destruct (spec_outs t r) as [|a [|b l]] eqn:E; cbn [length] in Hl.
@@ -143,7 +142,7 @@ Proof. intros Hwf Hr. destruct (wf_parts t Hwf) as [Hpos [Hlen Hnames]]. destruc
     unfold component_names. fold (names t). rewrite Hnl, <- Hl, Nat.eqb_refl. reflexivity. Qed.
 
 Lemma get_results_spec t xs l : wf t = true -> (forall r, In r l -> In r (t_rules t)) ->
-  get_results t (map (eval_rule false t xs) l) = Some (map (spec_out t) l).
+  get_results t (map (eval_rule false true t xs) l) = Some (map (spec_out t) l).
 Proof. intros Hwf. induction l as [|r l IH]; intros Hin; cbn [map get_results]; [reflexivity|].
   rewrite (get_result_spec t xs r Hwf (Hin r (or_introl eq_refl))), IH; [reflexivity|]. intros r' Hr'. apply Hin. right. exact Hr'. Qed.
 
@@ -223,8 +222,8 @@ Lemma cmp_outs_keys ocs : forall a b,
 Proof. induction ocs as [|oc ocs IH]; intros [|v1 a] [|v2 b]; cbn [map combine cmp_outs cmp_keys fst snd]; try reflexivity.
   rewrite cmp_pos_key, IH. unfold key1. destruct (o_values oc); reflexivity. Qed.
 
-Lemma prioritized_spec t xs : typed t xs = true ->
-  prioritized false t xs = map (eval_rule false t xs) (by_priority t (hits t xs)).
+Lemma prioritized_spec t xs : typed_nl t xs = true ->
+  prioritized false true t xs = map (eval_rule false true t xs) (by_priority t (hits t xs)).
 Proof. intros Ht. unfold prioritized, by_priority. rewrite (matching_hits t xs Ht). symmetry. apply ssort_map.
   intros x y _ _. rewrite !outs_eval. unfold output_values, key. apply cmp_outs_keys. Qed.
 
@@ -324,8 +323,8 @@ Proof. intros Hwf. destruct (wf_parts t Hwf) as [_ [Hlen _]]. unfold build_ok. a
 Section Refine.
 Variables (t : table) (xs : list atom).
 Hypothesis Hwf : wf t = true.
-Hypothesis Hty : typed t xs = true.
-Let E := eval_rule false t xs.
+Hypothesis Hty : typed_nl t xs = true.
+Let E := eval_rule false true t xs.
 
 Lemma hits_rules r : In r (hits t xs) -> In r (t_rules t).
 Proof. intros H. apply hits_in in H. tauto. Qed.
@@ -354,7 +353,7 @@ Proof. intros H. destruct (wf_parts t Hwf) as [_ [_ Hn]]. destruct (Hn H) as [Hl
 Lemma aggregate_spec (f g : list atom -> atom) (sel : agg) :
   (t_policy t = PCollect sel) -> (sel = ASum \/ sel = AMin \/ sel = AMax) ->
   (f (map (single_out t) (hits t xs)) = g (map (single_out t) (hits t xs))) ->
-  aggregate false f t xs =
+  aggregate false true f t xs =
   match hits t xs with
   | [] => match t_outputs t with _ :: _ :: _ => onull | _ => OOne (spec_default t) end
   | h :: hs => spec_agg g t (h :: hs)
@@ -371,7 +370,7 @@ Proof. intros _ _ Hfg. unfold aggregate, spec_agg. rewrite (matching_hits t xs H
       * intros r Hr. apply hits_rules. rewrite Eh. exact Hr.
   - rewrite names_gt1 by (rewrite Eo; cbn [length]; lia). destruct (hits t xs); reflexivity. Qed.
 
-Theorem hit_policy_refines : hit_policy false t xs = dt_spec t xs.
+Theorem hit_policy_refines : hit_policy false true t xs = dt_spec t xs.
 Proof. unfold hit_policy, dt_spec.
   destruct (t_policy t) as [| | | | | |a] eqn:Hp.
   - (* UNIQUE *) rewrite (matching_hits t xs Hty). fold E. destruct (hits t xs) as [|h [|h2 hs]] eqn:Eh; cbn [map].
@@ -423,8 +422,60 @@ Proof. unfold hit_policy, dt_spec.
         unfold spec_agg. rewrite Eo. destruct (hits t xs); reflexivity. Qed.
 End Refine.
 
+(* the refinement for the algorithm with the null literal handled as a test (known finding null-literal-entry) *)
+Theorem policy_refines_nl t xs : wf t = true -> typed_nl t xs = true -> dt_impl_nl t xs = dt_spec t xs.
+Proof. intros Hwf Hty. unfold dt_impl_nl, dt_impl_gen. rewrite (build_ok_wf t Hwf). apply hit_policy_refines; assumption. Qed.
+
+(* a table without null literals does not reach the difference *)
+Lemma in_list_nonnull x l : forallb item_nonnull l = true -> in_list_gen false x l = in_list_gen true x l.
+Proof. induction l as [|i l IH]; cbn [forallb in_list_gen]; intros H; [reflexivity|].
+  apply andb_true_iff in H. destruct H as [Hi Hl]. rewrite (IH Hl).
+  destruct i as [a|o a|lo lc hi hc]; [destruct a; cbn in Hi; try discriminate|..]; reflexivity. Qed.
+
+Lemma in_test_nonnull x u : utest_nonnull u = true ->
+  in_test false false (neg false false) x u = in_test false true (neg false true) x u.
+Proof. destruct u as [|l|l]; cbn [utest_nonnull in_test]; intros H; [reflexivity|apply in_list_nonnull; exact H|].
+  unfold neg. cbv iota. unfold in_neg_list_gen. rewrite (in_list_nonnull x l H). reflexivity. Qed.
+
+Lemma rule_matches_nonnull xs ics : forall es,
+  forallb (fun ic => match i_values ic with None => true | Some vs => forallb item_nonnull vs end) ics = true ->
+  forallb utest_nonnull es = true ->
+  rule_matches false false xs ics es = rule_matches false true xs ics es.
+Proof. revert xs. induction ics as [|ic ics IH]; intros [|x xs] [|e es] Hi He; cbn [rule_matches]; try reflexivity.
+  cbn [forallb] in Hi, He. apply andb_true_iff in Hi. destruct Hi as [Hi1 Hi2]. apply andb_true_iff in He. destruct He as [He1 He2].
+  rewrite (IH xs es Hi2 He2). f_equal. unfold entry_true. rewrite (in_test_nonnull x e He1).
+  destruct (i_values ic) as [vs|]; [|reflexivity]. rewrite (in_list_nonnull x vs Hi1). reflexivity. Qed.
+
+Lemma rule_outs_nonnull ocs : forall os,
+  forallb (fun oc => match o_values oc with None => true | Some vs => forallb nonnull vs end) ocs = true ->
+  rule_outs false ocs os = rule_outs true ocs os.
+Proof. induction ocs as [|oc ocs IH]; intros [|o os] H; cbn [rule_outs]; try reflexivity.
+  cbn [forallb] in H. apply andb_true_iff in H. destruct H as [H1 H2]. rewrite (IH os H2). f_equal.
+  unfold out_filter_gen. destruct (o_values oc) as [vs|]; [|reflexivity]. rewrite in_list_nonnull; [reflexivity|].
+  clear - H1. induction vs as [|v vs IHv]; cbn [map forallb] in *; [reflexivity|].
+  apply andb_true_iff in H1. destruct H1 as [Hv Hvs]. rewrite (IHv Hvs). destruct v; cbn in Hv; try discriminate; reflexivity. Qed.
+
+Lemma matching_nonnull t xs : no_null_lits t = true -> matching false false t xs = matching false true t xs.
+Proof. unfold no_null_lits. intros H. apply andb_true_iff in H. destruct H as [H H3]. apply andb_true_iff in H. destruct H as [H1 H2].
+  unfold matching. f_equal. apply map_ext_in. intros r Hr. unfold eval_rule. rewrite forallb_forall in H3.
+  rewrite (rule_matches_nonnull xs (t_inputs t) (r_in r) H1 (H3 r Hr)), (rule_outs_nonnull (t_outputs t) (r_out r) H2). reflexivity. Qed.
+
+Lemma impl_is_nl t xs : no_null_lits t = true -> dt_impl t xs = dt_impl_nl t xs.
+Proof. intros H. unfold dt_impl, dt_impl_nl, dt_impl_gen, hit_policy, prioritized, aggregate. rewrite (matching_nonnull t xs H). reflexivity. Qed.
+
+Lemma typed_parts t xs : typed t xs = true -> typed_nl t xs = true /\ no_null_lits t = true.
+Proof. unfold typed. intros H. apply andb_true_iff in H. exact H. Qed.
+
 Theorem policy_refines t xs : wf t = true -> typed t xs = true -> dt_impl t xs = dt_spec t xs.
-Proof. intros Hwf Hty. unfold dt_impl, dt_impl_gen. rewrite (build_ok_wf t Hwf). apply hit_policy_refines; assumption. Qed.
+Proof. intros Hwf Hty. destruct (typed_parts t xs Hty) as [H1 H2]. rewrite (impl_is_nl t xs H2). apply policy_refines_nl; assumption. Qed.
+
+Theorem matching_exact t xs : typed t xs = true ->
+  matching false false t xs = map (eval_rule false false t xs) (filter (rule_sat t xs) (t_rules t)).
+Proof. intros Hty. destruct (typed_parts t xs Hty) as [H1 H2]. rewrite (matching_nonnull t xs H2), (matching_hits t xs H1). unfold hits.
+  apply map_ext_in. intros r Hr. apply filter_In in Hr. destruct Hr as [Hr _].
+  unfold no_null_lits in H2. apply andb_true_iff in H2. destruct H2 as [H2 H5]. apply andb_true_iff in H2. destruct H2 as [H3 H4].
+  rewrite forallb_forall in H5. unfold eval_rule.
+  rewrite (rule_matches_nonnull xs (t_inputs t) (r_in r) H3 (H5 r Hr)), (rule_outs_nonnull (t_outputs t) (r_out r) H4). reflexivity. Qed.
 
 (* ================================================================== corollaries in the words of the property *)
 Lemma filter_first {A} (f : A -> bool) l : forall h hs, filter f l = h :: hs ->
@@ -614,6 +665,30 @@ Theorem orig_default_compound_refuted :
   wf t_dflt = true /\ typed t_dflt [ANum 0%Z] = true /\ hits t_dflt [ANum 0%Z] = [] /\
   dt_spec t_dflt [ANum 0%Z] = OOne (RCtx [(0%N, AStr 3); (1%N, AStr 5)]) /\
   dt_impl_orig t_dflt [ANum 0%Z] = onull /\ dt_impl t_dflt [ANum 0%Z] = dt_spec t_dflt [ANum 0%Z].
+Proof. vm_compute. repeat split. Qed.
+
+(* `-` matches every value including null; the null literal is a test (matches exactly a null value) *)
+Definition t_dash : table :=
+  {| t_policy := PUnique; t_inputs := [{| i_values := None |}];
+     t_outputs := [{| o_name := None; o_values := None; o_default := None |}];
+     t_rules := [{| r_in := [UAny]; r_out := [ANum 7] |}] |}.
+Definition t_nulllit : table :=
+  {| t_policy := PCollect AList; t_inputs := [{| i_values := None |}];
+     t_outputs := [{| o_name := None; o_values := None; o_default := None |}];
+     t_rules := [{| r_in := [UPos [ILit ANull]]; r_out := [ANum 7] |}; {| r_in := [UNeg [ILit ANull]]; r_out := [ANum 8] |};
+                 {| r_in := [UPos [ILit (ANum 1); ILit ANull]]; r_out := [ANum 9] |}] |}.
+
+Theorem orig_dash_null_refuted :
+  wf t_dash = true /\ typed t_dash [ANull] = true /\
+  dt_spec t_dash [ANull] = OOne (RAtom (ANum 7)) /\ dt_impl_orig t_dash [ANull] = onull /\ dt_impl t_dash [ANull] = OOne (RAtom (ANum 7)).
+Proof. vm_compute. repeat split. Qed.
+
+(* known finding null-literal-entry: the code does not handle the literal null as a unary test *)
+Theorem null_literal_known :
+  wf t_nulllit = true /\ typed_nl t_nulllit [ANull] = true /\ typed_nl t_nulllit [ANum 1%Z] = true /\ no_null_lits t_nulllit = false /\
+  dt_spec t_nulllit [ANull] = OMany [RAtom (ANum 7); RAtom (ANum 9)] /\ dt_impl t_nulllit [ANull] = onull /\
+  dt_spec t_nulllit [ANum 1%Z] = OMany [RAtom (ANum 8); RAtom (ANum 9)] /\ dt_impl t_nulllit [ANum 1%Z] = OMany [RAtom (ANum 9)] /\
+  dt_impl_nl t_nulllit [ANull] = dt_spec t_nulllit [ANull] /\ dt_impl_nl t_nulllit [ANum 1%Z] = dt_spec t_nulllit [ANum 1%Z].
 Proof. vm_compute. repeat split. Qed.
 
 (* a table without output clause is not well-shaped and reaches the index out of bounds of get_result *)
